@@ -740,25 +740,49 @@ class List(list, base.Symbolic, pg_typing.CustomTyping):
     if self._value_spec and self._value_spec.min_size > 0:
       raise ValueError(
           f'List cannot be cleared: min size is {self._value_spec.min_size}.')
+    old_values = list(self.sym_values())
     # Detach the removed values from the object tree.
-    for item in self.sym_values():
+    for item in old_values:
       if isinstance(item, base.TopologyAware):
         item.sym_setparent(None)
     super().clear()
+    self._notify_repositioned(old_values)
 
   def sort(self, *, key=None, reverse=False) -> None:
     """Sorts the items of the list in place.."""
     if base.treats_as_sealed(self):
       raise base.WritePermissionError('Cannot sort a sealed List.')
+    old_values = list(self.sym_values())
     super().sort(key=key, reverse=reverse)
     self._update_children_index()
+    self._notify_repositioned(old_values)
 
   def reverse(self) -> None:
     """Reverse the elements of the list in place."""
     if base.treats_as_sealed(self):
       raise base.WritePermissionError('Cannot reverse a sealed List.')
+    old_values = list(self.sym_values())
     super().reverse()
     self._update_children_index()
+    self._notify_repositioned(old_values)
+
+  def _notify_repositioned(self, old_values: typing.List[Any]) -> None:
+    """Notifies the positions whose value differs from `old_values`."""
+    if not flags.is_change_notification_enabled():
+      return
+    new_values = list(self.sym_values())
+    field = self._value_spec.element if self._value_spec else None
+    updates = []
+    for i in range(max(len(old_values), len(new_values))):
+      old_value = (
+          old_values[i] if i < len(old_values) else pg_typing.MISSING_VALUE)
+      new_value = (
+          new_values[i] if i < len(new_values) else pg_typing.MISSING_VALUE)
+      if old_value is not new_value:
+        updates.append(base.FieldUpdate(
+            self.sym_path + i, self, field, old_value, new_value))
+    if updates:
+      self._notify_field_updates(updates)
 
   def custom_apply(
       self,
